@@ -14,6 +14,7 @@ ops (macro ops executed by `harness/hcore/src/bin/timers.rs` at quiescent points
   `advstop <d>` `advkill <d>` `advdrain <d>`   clock += d, then the API call on the target
   `abort <i>` `stop` `kill` `drain`
   `hold` `psrelease`              gate the target's `post_stop` / open the gate
+  `fail` `advfail <d>`            cast a message on which the target's handler returns `Err` (the actor FAILS)
   `drop <i>` `advdrop <d> <i>`    drop the `JoinHandle` of timer i (the task is detached; an `AbortHandle` is kept)
 
 observation after each op (model and implementation, compared verbatim):
@@ -121,6 +122,8 @@ def parseMOp? (ws : List String) : Option MOp :=
   | ["stop"] => some .stop | ["kill"] => some .kill | ["drain"] => some .drain
   | ["drop", i] => i.toNat?.map MOp.dropHandle
   | ["advdrop", d, i] => do pure (MOp.advDrop (← d.toNat?) (← i.toNat?))
+  | ["fail"] => some .fail
+  | ["advfail", d] => d.toNat?.map MOp.advFail
   | ["hold"] => some .hold
   | ["psrelease"] => some .psrelease
   | _ => none
@@ -129,6 +132,7 @@ def parseReason? (s : String) : Option Reason :=
   if s == "manual" then some .manual
   else if s == "Drained" then some .drained
   else if s == "killed" then some .killed
+  else if s == "<failed> poison" then some .failed
   else if s.startsWith "Exit after " && s.endsWith "ms" then
     (((s.drop 11).dropEnd 2).toString.toNat?).map Reason.exitAfter
   else none
